@@ -9,7 +9,7 @@ EXTENDS MonBase, TSBytes
 VARIABLES l, st
 vars == <<l, st>>
 NoCC == 99
-Init == l = 1 /\ st = [tr |-> "none", last |-> EmptyFn, op |-> "none", after |-> "none", bigaf |-> FALSE, at |-> 0]
+Init == l = 1 /\ st = [tr |-> "none", last |-> EmptyFn, op |-> "none", after |-> "none", bigaf |-> FALSE, at |-> 0, skip |-> FALSE]
 
 Role(pid) == IF pid = PATPID THEN "pat" ELSE IF pid = PMTPID THEN "pmt" ELSE "es"
 
@@ -17,7 +17,12 @@ OnCall(s, e, i) ==
   LET s1 == [s EXCEPT !.op = e.op, !.at = i,
                       !.after = IF e.err # "nil" THEN e.op \o ":" \o e.err ELSE s.after,
                       !.bigaf = (e.op = "data" /\ Get(e, "afbig", FALSE))]
-  IN IF e.op = "remove" /\ e.err = "nil" THEN [s1 EXCEPT !.last = DelFn(s1.last, e.pid)] ELSE s1
+      \* a call during which the io.Writer itself failed (fault-injection histories): when the writer took nothing of it, no counter value
+      \* may have been consumed (the packets were withheld); when it took a part, the counters on the wire are whatever that part carried -
+      \* tracking starts afresh
+      wf == Get(e, "wfail", FALSE)
+      s2 == [s1 EXCEPT !.skip = wf, !.last = IF wf /\ e.delta > 0 THEN EmptyFn ELSE s1.last]
+  IN IF e.op = "remove" /\ e.err = "nil" THEN [s2 EXCEPT !.last = DelFn(s2.last, e.pid)] ELSE s2
 
 OnPkt(s, e, i) ==
   LET b == e.b
@@ -36,9 +41,9 @@ OnPkt(s, e, i) ==
                      role |-> Role(h.pid), prev |-> prev, got |-> h.cc, after |-> s.after, bigaf |-> s.bigaf, op |-> s.op])
 
 Step(s, e, i) ==
-  CASE e.ev = "reset" -> [tr |-> e.t, last |-> EmptyFn, op |-> "none", after |-> "none", bigaf |-> FALSE, at |-> i]
+  CASE e.ev = "reset" -> [tr |-> e.t, last |-> EmptyFn, op |-> "none", after |-> "none", bigaf |-> FALSE, at |-> i, skip |-> FALSE]
     [] e.ev = "call" -> OnCall(s, e, i)
-    [] e.ev = "pkt" -> OnPkt(s, e, i)
+    [] e.ev = "pkt" -> IF s.skip THEN s ELSE OnPkt(s, e, i)
     [] OTHER -> s
 
 Next == /\ l <= Len(Trace)
